@@ -81,6 +81,13 @@ theorem step_abs (s : FS) (op : Op) :
       abs (step s op).1 = abs s ++ [absTxn s.log st.toTxn] :=
   Proofs.FileStoreTop.step_abs s op
 
+/-- `_txn_find` (used by undo and by restore's `prev_txn` hint) finds every committed transaction
+    by its id — including, since the repair of `pos > 39`, an empty first transaction with hardly
+    any metadata (reproduced defect `C04:undolog-skips-short-first-txn`, fixed in /repo). -/
+theorem txn_find_total {s : FS} {t : FTxn} (h : Inv s) (ht : t ∈ s.log) :
+    ∃ older, txnFind t.tid s.log = some (t, older) :=
+  Proofs.FileStoreTop.txnFind_total h ht
+
 /-! ### tids strictly increase, whatever the clock does -/
 
 /-- `tid_strict_mono`: for EVERY sequence of clock readings (stalled, stepping back, anything) the
@@ -206,6 +213,12 @@ example : FileStore.load exS 3 = .error .keyError := by decide             -- un
 example : (FileStore.iterator exS (some 3) (some 3) true).map (·.recs) = [[⟨1, some [7], some 1⟩]] := by
   decide
 example : (FileStore.undoLog exS 0 2).map (·.tid) = [4, 3] := by decide
+
+/-- the repaired quirk: an empty first transaction with 3 bytes of metadata ends at offset 38 < 39
+    and is nevertheless listed by `undoLog` and found by `_txn_find` -/
+def exShort : FS := run init [.begin (some 1) 0 32 [97, 98, 99] [] [], .vote, .finish]
+example : exShort.pos = 38 ∧ (FileStore.undoLog exShort 0 20).map (·.tid) = [1] ∧
+    (txnFind 1 exShort.log).isSome = true := by decide
 
 /-! ### MappingStorage
 
